@@ -89,6 +89,56 @@ def gen_C17():
             return 0
         return None
     f.n("close_last_out_frees", last_out(), st + " fn close")
+    # the step order of `close`: which side wakes its peer before / after `open.swap(false)`.  The model's
+    # close steps are generated from these four bits (Spsc.cfg_*), so a changed close changes the model.
+    def close_wakes():
+        if s is None:
+            return [None] * 4
+        b = fn_body(s, "close")
+        if b is None:
+            return [None] * 4
+        m = re.search(r"self\s*\.\s*open\s*\.\s*swap\s*\(", b)
+        if not m:
+            return [None] * 4
+        pre, post = b[:m.start()], b[m.end():]
+        # cut `post` at the point where the contents are dropped
+        k = post.find("drop_contents")
+        if k >= 0:
+            post = post[:k]
+        def side_wakes(seg, waker):
+            # the Sender side wakes `receiver`, the Receiver side wakes `sender`
+            side = "Sender" if waker == "receiver" else "Receiver"
+            call = r"self\s*\.\s*%s\s*\.\s*wake\s*\(\s*\)" % waker
+            if re.search(r"Side::%s\s*=>\s*(?:\{\s*)?%s" % (side, call), seg):
+                return 1
+            if re.search(r"if\s+side\s*==\s*Side::%s\s*\{[^{}]*%s" % (side, call), seg):
+                return 1
+            if re.search(call, seg):
+                return None      # a wake in a shape the translator does not understand
+            return 0
+        return [side_wakes(pre, "receiver"), side_wakes(post, "receiver"), side_wakes(pre, "sender"), side_wakes(post, "sender")]
+    cw = close_wakes()
+    f.n("close_pre_wake_sender", cw[0], st + " fn close")
+    f.n("close_post_wake_sender", cw[1], st + " fn close")
+    f.n("close_pre_wake_receiver", cw[2], st + " fn close")
+    f.n("close_post_wake_receiver", cw[3], st + " fn close")
+    # platform rx task: does the early-return path of poll_ring! (ring full -> Pending) issue the deferred
+    # consumer wake-up?  (1 = `if pending_wake { this.ring.wake(); }` precedes `return Poll::Pending` there)
+    rxp = "quic/s2n-quic-platform/src/socket/task/rx.rs"
+    rx = read(rxp)
+    rxv = None
+    if rx is not None:
+        rx = strip_comments(rx)
+        m = re.search(r"macro_rules!\s*poll_ring\s*\{(.*?)macro_rules!\s*drain_socket", rx, re.S)
+        if m:
+            body = m.group(1)
+            m2 = re.search(r"Poll::Pending\s*=>\s*(.*)", body, re.S)
+            if m2:
+                arm = m2.group(1)
+                k = arm.find("return Poll::Pending")
+                if k >= 0:
+                    rxv = 1 if re.search(r"if\s+pending_wake\s*\{\s*this\.ring\.wake\(\)\s*;?\s*\}", arm[:k]) else 0
+    f.n("rx_early_return_wakes", rxv, rxp + " macro poll_ring!")
     # AtomicWaker (external crate re-exported by sync/primitive.rs): version from Cargo.lock
     lock = read("Cargo.lock")
     aw_src, aw_origin = None, "atomic-waker (not found)"
